@@ -231,6 +231,7 @@ def run(facts, rep, tier, ctx):
     # reader window and seek bases (C14's shapes) and PhysicalFS open options decide which bytes come back
     h.read_rules(rep, "R04.r")
     h.seek_rules(rep, "R04.r", "R04.r")
+    h.handle_surface_rules(rep, "R04.r")
     physrules.table_o_shape(facts, rep, "R04.2p", ws)
     # the async port: same publication / session-start / length / routing clauses on its own copies of the code
     wa = World(facts, True)
@@ -251,6 +252,19 @@ def run(facts, rep, tier, ctx):
         k += read_to_string_rules(facts, A, wa, D)
         ha.read_rules(A, "R04.r")
         ha.seek_rules(A, "R04.r", "R04.r")
+        ha.handle_surface_rules(A, "R04.r")
         physrules.table_o_shape(facts, A, "R04.2p", wa)
         rep.floor("async-world obligations", k, 30)
+    # opening a file for append does not change what readers get until the session publishes
+    from . import c01
+    from ..report import Report
+    for w_ in (ws, wa):
+        if not w_.present():
+            continue
+        scratch = Report("m")
+        c01.table_m(facts, scratch, "M", "Mk", self_ty=w_.memory, trait=w_.trait.rsplit("::", 1)[1], ops_filter=("append_file",))
+        for o in scratch.obligations:
+            d = o["key"].split("|")[2]
+            if "the stored entry is not modified" in d:
+                rep.ob(("A/" if w_.asyncw else "") + "R04.2", o["fn"], d, o["ok"], o["detail"], o["loc"])
     rep.assume("std Cursor / File / io::copy honour their contracts")
